@@ -81,8 +81,12 @@ PatAZ       == OPat(<<92, 65, 91, 97, 45, 122, 93, 43, 92, 90>>)        \* \A[a-
 PatIdx == IF Rich THEN 0..12 ELSE {0, 1, 2, 3, 4, 5, 9}          \* 0 = no pattern
 MinLenSet == {Absent, 0, 1, 2}
 MaxLenSet == {Absent, 0, 2, 3}
-Formats == IF Rich THEN <<"uuid", "date", "byte", "date-time", "ipv4">> ELSE <<"uuid", "date", "byte">>
-FmtLens == IF Rich THEN {<<Absent, Absent>>, <<1, Absent>>, <<Absent, 3>>, <<0, 40>>, <<10, 10>>} ELSE {<<Absent, Absent>>, <<1, Absent>>, <<Absent, 3>>}
+(* every format the oracle can decide at least partly, incl. those whose grammar has the EMPTY text as a member (uri-reference, regex, ..)
+   and those where it is the only decided non-member (hostname, email, ..) *)
+Formats == IF Rich THEN <<"uuid", "date", "byte", "date-time", "ipv4", "uri-reference", "iri-reference", "uri-template", "regex", "json-pointer",
+                          "hostname", "email", "uri", "ipv6", "time", "duration">>
+           ELSE <<"uuid", "date", "byte", "uri-reference", "regex", "hostname", "uri-template">>
+FmtLens == IF Rich THEN {<<Absent, Absent>>, <<1, Absent>>, <<Absent, 3>>, <<0, 40>>, <<10, 10>>} ELSE {<<Absent, Absent>>, <<Absent, 3>>}
 StrLeaf(mnl, mxl, p, f) == Ty("string") @@ Opt("minLength", mnl) @@ Opt("maxLength", mxl)
                              @@ (IF p = 0 THEN E ELSE "pattern" :> Patterns[p]) @@ (IF f = 0 THEN E ELSE "format" :> Formats[f])
 (* NOTE (TLC): values of different JSON types share the field name v, and TLC cannot compare an integer with a boolean or a
@@ -129,9 +133,20 @@ kd == <<100>>
 ShapeSchemas31 == << Ty("object") @@ [props |-> [k |-> <<ka, kb>>, v |-> <<[sk |-> "true"], Ty("integer")>>], required |-> <<ka>>],
                      Ty("array") @@ [items |-> [sk |-> "true"], minItems |-> 1],
                      Ty("object") @@ [props |-> [k |-> <<ka, kb>>, v |-> <<Ty("string") @@ [const |-> Sv(<<120>>)], Ty("integer") @@ [minimum |-> 0]>>], required |-> <<ka, kb>>] >>
-ShapeSchemas == << Ty("array") @@ [items |-> Ty("object") @@ [props |-> [k |-> <<ka>>, v |-> <<Ty("integer") @@ [minimum |-> 0, maximum |-> 3]>>], required |-> <<ka>>], minItems |-> 1],
+ShapeSchemas == << Ty("object") @@ [props |-> [k |-> <<ka, kb>>, v |-> <<Ty("string") @@ [format |-> "uri-reference"], Ty("string") @@ [format |-> "regex"]>>], required |-> <<ka>>],
+                   Ty("array") @@ [items |-> Ty("object") @@ [props |-> [k |-> <<ka>>, v |-> <<Ty("integer") @@ [minimum |-> 0, maximum |-> 3]>>], required |-> <<ka>>], minItems |-> 1],
                    Ty("object") @@ [props |-> [k |-> <<ka, kb, kc, kd>>, v |-> <<Ty("integer"), Ty("string"), Ty("boolean"), Ty("integer") @@ [minimum |-> 1]>>], required |-> <<ka>>],
                    Ty("object") @@ [props |-> [k |-> <<ka, kb, kc>>, v |-> <<Ty("integer"), Ty("string") @@ [minLength |-> 1], Ty("boolean")>>]] >>
+(* author-provided values on a PROPERTY (example / default / examples: only these values themselves are exempt) combined with an
+   object-level constraint that the object generated around them has to satisfy as well *)
+WithEx(s) == s @@ [example |-> Sv(<<66, 111, 98>>), default |-> Sv(<<97, 110, 111, 110>>)]            \* example "Bob", default "anon"
+ExProps == [k |-> <<ka, kb>>, v |-> <<WithEx(Ty("string")), Ty("integer") @@ [minimum |-> 0]>>]
+ExampleSchemas == << Ty("object") @@ [props |-> ExProps, required |-> <<ka, kb, kc>>],                  \* required names an undeclared property
+                     Ty("object") @@ [props |-> ExProps, required |-> <<ka>>, maxProperties |-> 1],     \* fewer properties allowed than declared
+                     Ty("object") @@ [props |-> ExProps, required |-> <<ka>>],                          \* control: satisfiable
+                     Ty("object") @@ [props |-> [k |-> <<ka>>, v |-> <<Ty("integer") @@ [example |-> I(1), default |-> I(2), minimum |-> 0]>>], minProperties |-> 2] >>
+ExampleSchemas3 == << Ty("object") @@ [props |-> ExProps, not |-> S0 @@ [required |-> <<kb>>]],        \* `not` forbids a declared property
+                      Ty("object") @@ [props |-> [k |-> <<ka, kb>>, v |-> <<Ty("string") @@ [examples |-> <<Sv(<<120>>), Sv(<<122>>)>>], Ty("integer")>>], required |-> <<ka, kc>>] >>
 RO(s) == s @@ [readOnly |-> TRUE]
 WO(s) == s @@ [writeOnly |-> TRUE]
 ReadOnlySchemas ==
@@ -178,6 +193,8 @@ IsSchemaDesc(x) ==      \* x is a member of the schema family  (disjunction of h
   \/ \E d \in RichD(D3), j \in DOMAIN NotSchemas : x = D("combinator", d, NotSchemas[j])
   \/ Rich /\ \E a \in DOMAIN CombLeaves, b \in DOMAIN CombLeaves : x = D("combinator", "2.0", Comb("allOf", a, b))
   \/ \E d \in AllD, j \in DOMAIN RefSchemas : x = DR("ref", d, RefSchemas[j])
+  \/ \E d \in RichD(AllD), j \in DOMAIN ExampleSchemas : x = D("example", d, ExampleSchemas[j])
+  \/ \E j \in DOMAIN ExampleSchemas3 : x = D("example", IF j = 2 THEN "3.1" ELSE "3.0", ExampleSchemas3[j])
   \/ \E j \in DOMAIN ShapeSchemas31 : x = D("shape", "3.1", ShapeSchemas31[j])
   \/ \E d \in AllD, j \in DOMAIN ShapeSchemas : x = D("shape", d, ShapeSchemas[j])
 
@@ -200,7 +217,9 @@ ParamLeaves == << Ty("integer") @@ [minimum |-> 0, maximum |-> 3],      \* 1
                   Ty("string") @@ [pattern |-> PatWordEnd, maxLength |-> 3],    \* 14
                   Ty("string") @@ [pattern |-> PatAZ, minLength |-> 1, maxLength |-> 3],   \* 15
                   Ty("integer") @@ [minimum |-> 1, exclMin |-> FALSE, maximum |-> 3, exclMax |-> FALSE],   \* 16  draft-4 default spelled out
-                  S0 @@ [maxLength |-> 3] >>                                    \* 17  no type: nothing presentable as valid in the coverage phase
+                  S0 @@ [maxLength |-> 3],                                      \* 17  no type: nothing presentable as valid in the coverage phase
+                  Ty("string") @@ [format |-> "uri-reference"],               \* 18  a format whose grammar contains the empty text
+                  Ty("string") @@ [format |-> "hostname"] >>                  \* 19  a format that has no empty member
 P(loc, name, req, si) == [loc |-> loc, name |-> name, required |-> req, schema |-> ParamLeaves[si]]
 nQ1 == <<113, 49>>       \* q1
 nQ2 == <<113, 50>>       \* q2
@@ -231,7 +250,7 @@ Bd(media, bi, req) == [media |-> media, schema |-> BodyPool[bi], required |-> re
 MJson == "application/json"
 MText == "text/plain"
 (* parameter / body sets are written as index tuples: <<>>, <<req, leaf>> or <<req, leaf, leaf2>> (second one optional) *)
-LeafIdx(loc) == IF Rich THEN (IF loc = "query" THEN 1..16 ELSE {1, 2, 3, 4, 5, 6, 9, 12, 13, 14, 15}) ELSE (IF loc = "query" THEN {1, 2, 3, 4, 5, 6, 10, 11, 13, 14} ELSE {1, 2, 5, 6, 13})
+LeafIdx(loc) == IF Rich THEN (IF loc = "query" THEN (1..16) \cup {18, 19} ELSE {1, 2, 3, 4, 5, 6, 9, 12, 13, 14, 15, 18, 19}) ELSE (IF loc = "query" THEN {1, 2, 3, 4, 5, 6, 10, 11, 13, 14, 18} ELSE {1, 2, 5, 6, 13, 18})
 QueryIdx == {<<0, 0, 0>>} \cup {<<r, a, 0>> : r \in {1, 2}, a \in LeafIdx("query")}
             \cup {<<r, a, b>> : r \in {1, 2}, a \in (IF Rich THEN LeafIdx("query") ELSE {1, 2, 5, 6}), b \in {1, 2, 6}}
 PathIdx == {<<0, 0, 0>>} \cup {<<2, a, 0>> : a \in LeafIdx("path")} \cup {<<2, a, b>> : a \in {1, 6}, b \in {2, 5}}
